@@ -173,8 +173,12 @@ class Run(object):
             'wall_s': round(time.time() - self.t0, 2),
             'violations': len(fresh),
         }
-        os.makedirs(os.path.join(VERIF, 'evidence'), exist_ok=True)
-        with open(os.path.join(VERIF, 'evidence', '%s.json' % self.pid), 'w') as f:
+        evdir = os.path.join(VERIF, 'evidence')
+        if REPO != '/repo':
+            # a run against a scratch copy (seeded-change testing) must not replace the evidence of the real tree
+            evdir = os.path.join(VERIF, 'replay', 'scratch-evidence')
+        os.makedirs(evdir, exist_ok=True)
+        with open(os.path.join(evdir, '%s.json' % self.pid), 'w') as f:
             json.dump(ev, f, indent=1, default=str, sort_keys=True)
             f.write('\n')
         print('%s tier=%s seed=%s evaluations=%d nontrivial=%d known=%d new=%d wall=%.1fs -> %s' % (
